@@ -216,6 +216,97 @@ def sanity_report_unit(res):
     return res
 
 
+def loader_unit(res):
+    """Pb: MachineModel.__init__ (real code; file access, the YAML reader, the pickle cache and operand_to_class - which has its own
+    unit in C07 - abstract) on a model-file structure with three instruction-form entries (one with an alias list, two that differ
+    only in the case of their name, with and without operands / hidden operands / optional keys; latency and throughput symbolic)
+    and load/store tables with typed, untyped, pre- and post-indexed rows: the per-mnemonic index lists, under the upper-cased name
+    and in file order (an alias list expanded at its position), one entry per (entry, name) carrying exactly the file entry's
+    latency, throughput, port pressure, micro-op count, operation and dependency-breaking flag, its operands converted one by one in
+    order (hidden operands likewise); every load/store table row becomes (memory pattern with the row's base, offset, index, scale,
+    type and pre/post-index flags, the row's port pressure); the internal version is recorded."""
+    import collections
+    files = ["osaca/parser/operand.py", "osaca/parser/memory.py", "osaca/parser/instruction_form.py", HW]
+    ex = Engine([REPO + "/" + f for f in files])
+    lat, tp = z3.Real("file_latency"), z3.Real("file_throughput")
+
+    def run():
+        d1, d2, h1 = {"class": "register", "name": "gpr"}, {"class": "memory", "base": "*"}, {"class": "flag", "name": "CF"}
+        pp0, pp2 = [[1, "01"]], {0: [[1, "0"]], 1: [[1, "1"]]}
+        e0 = {"name": "add", "operands": [d1, d2], "latency": SNum(lat, False), "throughput": SNum(tp, False), "port_pressure": pp0}
+        e1 = {"name": ["vmul", "vmuls"], "operands": [], "hidden_operands": [h1], "latency": None, "throughput": None, "port_pressure": None}
+        e2 = {"name": "Add", "operands": [d1], "latency": 3, "throughput": 1, "port_pressure": pp2, "uops": 3, "operation": "op1 = op1 + 1", "breaks_dependency_on_equal_operands": True}
+        lrows = [{"base": "gpr", "offset": "imd", "index": None, "scale": 1, "dst": "ymm", "port_pressure": [[2, "2"]]},
+                 {"base": "x", "offset": None, "index": "x", "scale": 8, "pre_indexed": True, "port_pressure": [[1, "3"]]}]
+        srows = [{"base": "gpr", "offset": None, "index": None, "scale": 1, "src": "xmm", "post_indexed": True, "port_pressure": [[1, "4"]]}]
+        data = {"isa": "x86", "ports": ["0", "1"], "instruction_forms": [e0, e1, e2], "load_throughput": lrows, "store_throughput": srows}
+        log = []
+
+        class Yaml:
+            def sym_method(self, ex_, name, a, kw):
+                if name == "load":
+                    log.append("load")
+                    return data
+                raise Unsupported("yaml." + name)
+
+        class File:
+            def sym_enter(self, ex_):
+                return self
+
+        def otc(ex_, so, a, kw):
+            a[1].append(("converted", a[0]))
+
+        ex.abstract["operand_to_class"] = otc
+        ex.abstract["_create_yaml_object"] = lambda ex_, so, a, kw: Yaml()
+        ex.abstract["_get_cached"] = lambda ex_, so, a, kw: False
+        ex.abstract["_write_in_cache"] = lambda ex_, so, a, kw: log.append("cache-written")
+        ex.abstract["open"] = lambda ex_, so, a, kw: File()
+        ex.abstract["utils.find_datafile"] = lambda ex_, so, a, kw: "the/file.yml"
+        ex.extra.update(entries=(e0, e1, e2), ops=(d1, d2, h1), lrows=lrows, srows=srows, pp=(pp0, pp2), log=log)
+        return ex.instantiate("MachineModel", kw=dict(path_to_yaml="the/file.yml"))
+
+    paths = ex.explore(run, [])
+
+    def post(v, p):
+        if not (isinstance(v, SObj) and v.cls == "MachineModel"):
+            return False
+        data = v.fields["_data"]
+        (e0, e1, e2), (d1, d2, h1), (pp0, pp2) = p.extra["entries"], p.extra["ops"], p.extra["pp"]
+        idx = data["instruction_forms_dict"]
+        if sorted(idx.keys()) != ["ADD", "VMUL", "VMULS"] or [len(idx[k]) for k in ("ADD", "VMUL", "VMULS")] != [2, 1, 1]:
+            return False
+        F = lambda o, k: o.fields["_" + k]
+        a0, a2, m1, m2 = idx["ADD"][0], idx["ADD"][1], idx["VMUL"][0], idx["VMULS"][0]
+        ok = (F(a0, "mnemonic") == "ADD" and F(a2, "mnemonic") == "ADD" and F(m1, "mnemonic") == "VMUL" and F(m2, "mnemonic") == "VMULS"
+              and F(a0, "operands") == [("converted", d1), ("converted", d2)] and F(a0, "operands")[0][1] is d1 and F(a0, "operands")[1][1] is d2
+              and F(a2, "operands") == [("converted", d1)] and F(m1, "operands") == [] and F(m2, "operands") == []
+              and F(m1, "hidden_operands") == [("converted", h1)] and F(m2, "hidden_operands") == [("converted", h1)] and F(a0, "hidden_operands") == []
+              and F(a0, "port_pressure") is pp0 and F(a2, "port_pressure") is pp2 and F(m1, "port_pressure") is None
+              and F(a2, "uops") == 3 and F(a0, "uops") is None and F(a2, "operation") == "op1 = op1 + 1" and F(a0, "operation") is None
+              and F(a2, "breaks_dependency_on_equal_operands") is True and F(a0, "breaks_dependency_on_equal_operands") is False
+              and F(m1, "latency") is None and F(m1, "throughput") is None and F(a2, "latency") == 3 and F(a2, "throughput") == 1)
+        g = [z3.BoolVal(bool(ok)), real_term(F(a0, "latency")) == lat, real_term(F(a0, "throughput")) == tp]
+        lt, st = data["load_throughput"], data["store_throughput"]
+        M = lambda m, k: m.fields["_" + k]
+        rows_ok = (isinstance(lt, list) and len(lt) == 2 and isinstance(st, list) and len(st) == 1 and all(isinstance(r, tuple) and len(r) == 2 and isinstance(r[0], SObj) and r[0].cls == "MemoryOperand" for r in lt + st))
+        if not rows_ok:
+            return False
+        for (m, ppv), row, kind in [(lt[0], p.extra["lrows"][0], "dst"), (lt[1], p.extra["lrows"][1], "dst"), (st[0], p.extra["srows"][0], "src")]:
+            g.append(z3.BoolVal(bool(M(m, "base") == row["base"] and M(m, "offset") == row["offset"] and M(m, "index") == row["index"] and M(m, "scale") == row["scale"]
+                                     and M(m, kind) == row.get(kind) and bool(M(m, "pre_indexed")) == bool(row.get("pre_indexed", False))
+                                     and bool(M(m, "post_indexed")) == bool(row.get("post_indexed", False)) and ppv is row["port_pressure"])))
+        g.append(z3.BoolVal("internal_version" in data and p.extra["log"].count("load") == 1))
+        return z3.And(g)
+
+    res.add_paths(paths, post, kind="loader/3-entries", label="Pb")
+    return res
+
+
+def _run_dispatch():
+    from .c13 import run_dispatch_unit
+    return run_dispatch_unit
+
+
 def units(tier):
     from .c01 import avg_unit, avg_pb_unit, handle_found_unit
     AS = "osaca/semantics/arch_semantics.py"
@@ -225,6 +316,8 @@ def units(tier):
         Unit("C15/average_port_pressure/exception-freedom-under-wf", avg_unit, "P", [(HW, "MachineModel.average_port_pressure")]),
         Unit("C15/average_port_pressure/Pb-floor", avg_pb_unit, "Pb", [(HW, "MachineModel.average_port_pressure")]),
         Unit("C15/_handle_instruction_found", handle_found_unit, "P", [(AS, "ArchSemantics._handle_instruction_found")]),
+        Unit("C15/run(--db-check reaches sanity_check)", _run_dispatch(), "P", [("osaca/osaca.py", "run")], decisive=False),
+        Unit("C15/MachineModel.__init__(loader: entries, aliases, tables)", loader_unit, "Pb", [(HW, "MachineModel.__init__")]),
         Unit("C15/_get_sanity_report+sanity_check(counts shown = list lengths)", sanity_report_unit, "P", [(DBI, "_get_sanity_report"), (DBI, "sanity_check")]),
         Unit("C15/_check_sanity_arch_db/counters", sanity_counter_unit, "P", [(DBI, "_check_sanity_arch_db")]),
     ]
